@@ -1048,31 +1048,31 @@ class XsdGroup(XsdComponent, MutableSequence[ModelParticleType],
                     if result is not None:
                         result.append((name, result_item, None))
                 continue
-            elif over_max_depth:
+            if over_max_depth:
+                # The child is cut, but the character data after it belongs to this level
                 if context.depth_filler is not None and isinstance(xsd_element, XsdElement):
                     func = context.depth_filler
                     if result is not None:
                         result.append((name, func(xsd_element), xsd_element))
-                continue
+            else:
+                result_item = xsd_element.raw_decode(child, validation, context)
+                if result_item is Empty:
+                    continue
+                elif result is not None:
+                    result.append((name, result_item, xsd_element))
 
-            result_item = xsd_element.raw_decode(child, validation, context)
-            if result_item is Empty:
-                continue
-            elif result is not None:
-                result.append((name, result_item, xsd_element))
-
-                if cdata_index and child.tail is not None:
-                    if self.mixed and context.preserve_mixed:
-                        tail = child.tail
+            if result is not None and cdata_index and child.tail is not None:
+                if self.mixed and context.preserve_mixed:
+                    tail = child.tail
+                else:
+                    tail = str(child.tail.strip())
+                if tail:
+                    if result and isinstance(result[-1][0], int):
+                        tail = result[-1][1] + ' ' + tail
+                        result[-1] = result[-1][0], tail, None
                     else:
-                        tail = str(child.tail.strip())
-                    if tail:
-                        if result and isinstance(result[-1][0], int):
-                            tail = result[-1][1] + ' ' + tail
-                            result[-1] = result[-1][0], tail, None
-                        else:
-                            result.append((cdata_index, tail, None))
-                            cdata_index += 1
+                        result.append((cdata_index, tail, None))
+                        cdata_index += 1
 
         if model.element is not None:
             index = len(obj)
